@@ -309,5 +309,3 @@ func fail(msg string) {
 	fmt.Fprintln(os.Stderr, "routing driver:", msg)
 	os.Exit(3)
 }
-
-var _ = http.MethodGet
